@@ -120,6 +120,8 @@ import (
 	"time"
 
 	"github.com/eclipse/paho.mqtt.golang/packets"
+	"gopkg.in/yaml.v2"
+
 	"github.com/megaease/easegress/pkg/context"
 	"github.com/megaease/easegress/pkg/logger"
 	"github.com/megaease/easegress/pkg/protocols/mqttprot"
@@ -394,7 +396,31 @@ func c15Gen(rng *sim.Rand, tier string) interface{} {
 				cl := mkClient(pr.ID)
 				cl.After = "gone"
 				cl.StartMs = rng.Pick(0, 0, 1, 50, 300)
+				// cleanSession=0 on the re-used id: the session comes back from the
+				// storage (or, if the broker has not torn the old connection down
+				// yet, is inherited in memory)
+				cl.Persist = rng.Bool(0.6)
+				if cl.Persist && rng.Bool(0.4) {
+					cl.Init = nil // lives on the restored subscriptions alone
+				}
+				third := cl.Persist && rng.Bool(0.3) && len(sc.Clients) < 8
+				if third {
+					cl.End = rng.PickStr("disconnect", "close", "reset")
+					cl.EndGapMs = rng.Pick(0, 1, 50, 300)
+				}
 				sc.Clients = append(sc.Clients, cl)
+				if third {
+					// ... and once more: what the restored session acquired must
+					// have been stored as well
+					c3 := mkClient(pr.ID)
+					c3.After = "gone"
+					c3.StartMs = rng.Pick(0, 1, 50, 300)
+					c3.Persist = true
+					if rng.Bool(0.5) {
+						c3.Init = nil
+					}
+					sc.Clients = append(sc.Clients, c3)
+				}
 			default: // the same id connects again while its connection is still open
 				i := rng.Intn(nC)
 				if taken[i] {
@@ -409,6 +435,10 @@ func c15Gen(rng *sim.Rand, tier string) interface{} {
 				cl := mkClient(pr.ID)
 				cl.After = "ready"
 				cl.StartMs = rng.Pick(0, 1, 100, 400)
+				if rng.Bool(0.35) {
+					// both persistent: the take-over inherits the session in memory
+					pr.Persist, cl.Persist = true, true
+				}
 				sc.Clients = append(sc.Clients, cl)
 			}
 		}
@@ -441,6 +471,57 @@ func c15Gen(rng *sim.Rand, tier string) interface{} {
 		}
 		sc.Publishers = append(sc.Publishers, pb)
 	}
+	// restored-session recipe (on top of whatever was drawn above): a persistent
+	// client with a QoS1 subscription ends its connection, the broker tears it
+	// down completely, the client comes back with cleanSession=0 (session and
+	// subscriptions restored from the storage), and only then QoS1 messages are
+	// published to it whose first transmission is lost: PUBACK withheld, or a
+	// burst longer than its outbound queue while it does not read.
+	overflow := false
+	if rng.Bool(0.3) && len(sc.Clients) <= 8 && len(sc.Publishers) > 0 {
+		id := "r0"
+		t := topic()
+		pr := mkClient(id)
+		pr.Persist = true
+		pr.Init = append([]c15SubPkt{{Subs: []c15Sub{{F: rng.PickStr(t, t, filterFor(t)), Q: 1}}}}, pr.Init...)
+		if len(pr.Init) > 2 {
+			pr.Init = pr.Init[:2]
+		}
+		pr.End = rng.PickStr("disconnect", "close", "reset")
+		pr.EndGapMs = rng.Pick(0, 1, 50, 300)
+		pr.StallAfter, pr.StallMs = 0, 0
+		if len(pr.Ops) > 2 {
+			pr.Ops = pr.Ops[:2]
+		}
+		su := mkClient(id)
+		su.After = "gone"
+		su.Persist = true
+		su.StartMs = rng.Pick(0, 1, 5, 50, 300, 700)
+		if rng.Bool(0.6) {
+			su.Init = nil
+		}
+		su.StallAfter, su.StallMs = 0, 0
+		overflow = rng.Bool(0.35)
+		if overflow {
+			su.StallAfter = rng.Range(1, 3)
+			su.StallMs = rng.Pick(300, 1000, 3000)
+		} else if len(su.Acks) > 0 && rng.Bool(0.8) {
+			su.Acks[0].Omit, su.Acks[0].DelayMs, su.Acks[0].Dup = rng.Range(1, 3), 0, false
+		}
+		sc.Clients = append(sc.Clients, pr, su)
+		pb := &sc.Publishers[rng.Intn(len(sc.Publishers))]
+		for j := 0; j < rng.Range(1, 3); j++ {
+			p := c15Pub{ID: fmt.Sprintf("r.%d", j), GapMs: rng.Pick(0, 1, 50, 250), T: t, Q: 1, Dist: true, After: id, Burst: rng.Pick(1, 1, 2, 5)}
+			if overflow && j == 0 {
+				p.Burst = rng.Pick(56, 64, 80)
+			}
+			if j > 0 && rng.Bool(0.3) {
+				p.Q, p.T = qos(), topic()
+			}
+			total += p.Burst
+			pb.Pubs = append(pb.Pubs, p)
+		}
+	}
 	sc.WaitReady = rng.Bool(0.8)
 	if rng.Bool(0.15) {
 		sc.Limit = rng.Pick(1, 3, 10)
@@ -450,6 +531,11 @@ func c15Gen(rng *sim.Rand, tier string) interface{} {
 	}
 	sc.PipeYield = rng.Bool(0.3)
 	sc.NetBuf = rng.Pick(0, 0, 4096, 512, 128)
+	if overflow && (sc.NetBuf == 0 || sc.NetBuf > 512) {
+		// the broker's write loop must get stuck on the socket for the queue to
+		// fill up
+		sc.NetBuf = rng.Pick(128, 512)
+	}
 	for i := 0; i < 2; i++ {
 		sc.Seg[i] = rng.Pick(0, 0, 0, 16, 3, 1)
 		if total > 40 && sc.Seg[i] > 0 && sc.Seg[i] < 16 {
@@ -552,6 +638,12 @@ func c15Shrink(sci interface{}) []interface{} {
 				p := &c.Publishers[i].Pubs[j]
 				ch := p.GapMs != 0 || p.B64 || !p.Dist
 				p.GapMs, p.B64, p.Dist = 0, false, true
+				return ch
+			})
+			variant(func(c *c15Scenario) bool {
+				p := &c.Publishers[i].Pubs[j]
+				ch := p.After != ""
+				p.After = ""
 				return ch
 			})
 		}
@@ -746,6 +838,87 @@ type c15Cl struct {
 	nextMid   uint16
 	qcap      int
 	subFail   bool
+	// session of a re-used client id with cleanSession=0
+	gets0    int             // session look-ups of the id in the storage before this connection dialled
+	restored bool            // the session was decoded from the storage
+	inMemory bool            // the predecessor's session object was inherited
+	flux     map[string]bool // filters whose state in the inherited session is uncertain (known C16 store lag): both outcomes accepted
+	inhF     map[string]bool // filters this connection holds only because its session was inherited
+	nInhRx   int
+}
+
+// ---- session storage: the repo's mockStorage behind a recording wrapper --------
+
+type c15Get struct {
+	hit    bool
+	bad    bool
+	clean  bool
+	topics map[string]int
+}
+
+type c15Store struct {
+	in   storage
+	gets map[string][]c15Get // per client id: what the broker was handed when it looked a session up
+	last map[string]string   // per client id: the stored session as of now
+	nPut int
+}
+
+var _ storage = (*c15Store)(nil)
+
+func c15StoreID(key string) string { return strings.TrimPrefix(key, sessionStoreKey("")) }
+
+func c15DecodeSession(v string) (c15Get, bool) {
+	info := &SessionInfo{}
+	if err := yaml.Unmarshal([]byte(v), info); err != nil {
+		return c15Get{hit: true, bad: true}, false
+	}
+	g := c15Get{hit: true, clean: info.CleanFlag, topics: map[string]int{}}
+	for f, q := range info.Topics {
+		g.topics[f] = q
+	}
+	return g, true
+}
+
+func (s *c15Store) get(key string) (*string, error) {
+	v, err := s.in.get(key)
+	g := c15Get{}
+	if err == nil && v != nil {
+		g, _ = c15DecodeSession(*v)
+	}
+	id := c15StoreID(key)
+	s.gets[id] = append(s.gets[id], g)
+	return v, err
+}
+
+func (s *c15Store) getPrefix(prefix string, keysOnly bool) (map[string]string, error) {
+	return s.in.getPrefix(prefix, keysOnly)
+}
+
+func (s *c15Store) put(key, value string) error {
+	s.nPut++
+	s.last[c15StoreID(key)] = value
+	return s.in.put(key, value)
+}
+
+func (s *c15Store) delete(key string) error {
+	delete(s.last, c15StoreID(key))
+	return s.in.delete(key)
+}
+
+func (s *c15Store) watchDelete(prefix string) (<-chan map[string]*string, func(), error) {
+	return s.in.watchDelete(prefix)
+}
+
+func c15SameSubs(a, b map[string]int) bool {
+	if len(a) != len(b) {
+		return false
+	}
+	for f, q := range a {
+		if bq, ok := b[f]; !ok || bq != q {
+			return false
+		}
+	}
+	return true
 }
 
 type c15PipeRec struct {
@@ -761,6 +934,7 @@ type c15H struct {
 	sc       *c15Scenario
 	net      *simnet.Net
 	broker   *Broker
+	store    *c15Store
 	clients  []*c15Cl
 	msgs     map[string]*c15Msg
 	msgList  []*c15Msg
@@ -861,11 +1035,133 @@ func (h *c15H) expFor(cl *c15Cl, m *c15Msg) c15Exp {
 		e.kind = c15May
 		return e
 	}
-	a := c15Elig(cl.confirmed, m.topic, m.q)
-	if cl.pend == nil {
-		return a
+	a := c15Elig(cl.settled(cl.confirmed), m.topic, m.q)
+	if cl.pend != nil {
+		a = c15Merge(a, c15Elig(cl.settled(h.state2(cl)), m.topic, m.q))
 	}
-	return c15Merge(a, c15Elig(h.state2(cl), m.topic, m.q))
+	if a.kind != c15Must {
+		for f := range cl.flux {
+			if c15Match(f, m.topic) {
+				// the inherited session may or may not hold this filter
+				a.kind = c15May
+				break
+			}
+		}
+	}
+	return a
+}
+
+// settled returns the subscriptions without the filters whose state in an
+// inherited session is uncertain.
+func (cl *c15Cl) settled(m map[string]int) map[string]int {
+	if len(cl.flux) == 0 {
+		return m
+	}
+	out := map[string]int{}
+	for f, q := range m {
+		if !cl.flux[f] {
+			out[f] = q
+		}
+	}
+	return out
+}
+
+// accepted returns the nearest earlier connection of the same client id that
+// the broker accepted.
+func (cl *c15Cl) accepted() *c15Cl {
+	for p := cl.pred; p != nil; p = p.pred {
+		if p.connected {
+			return p
+		}
+	}
+	return nil
+}
+
+// inheritSession works out, at the CONNACK of a cleanSession=0 connection of a
+// re-used client id, which subscriptions its session brings along. The source
+// of the session is read off the storage stub: a look-up during the handshake
+// that was answered with a stored persistent session means "restored from the
+// storage" (the subscriptions are those of the stored session), no look-up
+// means the broker still had a session in memory (the predecessor's).
+func (h *c15H) inheritSession(cl *c15Cl) {
+	r := h.r
+	if cl.clean || cl.pred == nil {
+		return
+	}
+	all := h.store.gets[cl.spec.ID]
+	if cl.gets0 > len(all) {
+		cl.gets0 = len(all)
+	}
+	gets := all[cl.gets0:]
+	pr := cl.accepted()
+	want, wantFlux := map[string]int{}, map[string]bool{}
+	if pr != nil && !pr.clean {
+		want, wantFlux = pr.confirmed, pr.flux
+	}
+	adopt := func(have map[string]int) {
+		for f, q := range have {
+			cl.confirmed[f] = q
+			cl.inhF[f] = true
+		}
+		for f := range wantFlux {
+			cl.flux[f] = true
+		}
+	}
+	switch {
+	case len(gets) > 1:
+		h.unjudge(cl, "several session look-ups during its handshake")
+		r.Probe("mqtt.persistent_reconnect_ambiguous_lookup")
+	case len(gets) == 1 && gets[0].hit && !gets[0].bad && !gets[0].clean:
+		cl.restored = true
+		r.Probe("mqtt.session_restored_from_storage")
+		r.Fault("session.dropped_from_memory_then_restored")
+		if len(gets[0].topics) > 0 {
+			r.Probe("mqtt.session_restored_from_storage_with_subscriptions")
+		}
+		adopt(gets[0].topics)
+		lag := false
+		for f, q := range gets[0].topics {
+			if wq, ok := want[f]; !ok || wq != q {
+				cl.flux[f], lag = true, true
+			}
+		}
+		for f := range want {
+			if _, ok := gets[0].topics[f]; !ok {
+				cl.flux[f], lag = true, true
+			}
+		}
+		if pr == nil || pr.clean || pr.pend != nil {
+			for f := range gets[0].topics {
+				cl.flux[f] = true
+			}
+			if pr != nil {
+				for _, s := range pr.pend {
+					cl.flux[s.F] = true
+				}
+			}
+		}
+		if lag {
+			// known C16 findings (store lag): not judged here
+			r.Probe("mqtt.restored_session_differs_from_acknowledged_subscriptions")
+		}
+		r.Eventf("client %s: session restored from storage %s flux=%d", cl.name, c15Subs(gets[0].topics), len(cl.flux))
+	case len(gets) == 1:
+		r.Probe("mqtt.persistent_reconnect_without_stored_session")
+	default:
+		// the broker found a session in its memory
+		switch {
+		case pr == nil || pr.pend != nil:
+			h.unjudge(cl, "inherited a session of unknown content")
+			r.Probe("mqtt.persistent_reconnect_unknown_session")
+		case pr.clean:
+			r.Probe("mqtt.persistent_reconnect_discards_clean_session")
+		default:
+			cl.inMemory = true
+			adopt(pr.confirmed)
+			r.Probe("mqtt.session_inherited_in_memory")
+			r.Eventf("client %s: session inherited in memory %s", cl.name, c15Subs(pr.confirmed))
+		}
+	}
 }
 
 // subChanged weakens the expectations of all messages already issued: from now
@@ -963,6 +1259,7 @@ func (h *c15H) runClient(cl *c15Cl) {
 			r.Probe("mqtt.reconnect_after_end")
 		}
 	}
+	cl.gets0 = len(h.store.gets[cl.spec.ID])
 	conn, err := h.net.Dial(gocontext.Background(), "tcp", "10.2.0.1:1883")
 	if err != nil {
 		fail("dial: %v", err)
@@ -1006,6 +1303,7 @@ func (h *c15H) runClient(cl *c15Cl) {
 		r.Probe("mqtt.connection_exposed_to_delete_echo")
 	}
 	if cl.pred != nil {
+		h.inheritSession(cl)
 		h.subChanged(cl)
 	}
 	r.Eventf("client %s connected (clean=%v)", cl.name, cl.clean)
@@ -1035,6 +1333,8 @@ func (h *c15H) runClient(cl *c15Cl) {
 				cl.pkts = append(cl.pkts, c15Pkt{cl.pendTick, h.tick})
 				for _, s := range cl.pend {
 					cl.confirmed[s.F] = s.Q
+					delete(cl.flux, s.F)
+					delete(cl.inhF, s.F)
 				}
 				cl.pend = nil
 				h.subChanged(cl)
@@ -1052,6 +1352,8 @@ func (h *c15H) runClient(cl *c15Cl) {
 				cl.pkts = append(cl.pkts, c15Pkt{cl.pendTick, h.tick})
 				for _, s := range cl.pend {
 					delete(cl.confirmed, s.F)
+					delete(cl.flux, s.F)
+					delete(cl.inhF, s.F)
 				}
 				cl.pend, cl.pendUnsub = nil, false
 				h.subChanged(cl)
@@ -1131,6 +1433,18 @@ func (h *c15H) onPublish(cl *c15Cl, p *packets.PublishPacket) {
 			r.Probe("mqtt.downgraded_copy_to_lower_qos_subscriber")
 		}
 	}
+	if cl.restored && e.kind == c15Must && m.tick >= cl.connTick {
+		own := false
+		for f, q := range cl.confirmed {
+			if !cl.inhF[f] && q >= m.q && c15Match(f, m.topic) {
+				own = true
+			}
+		}
+		if !own {
+			cl.nInhRx++
+			r.Probe("mqtt.restored_session.delivery_on_restored_subscription")
+		}
+	}
 	rx := cl.rx[key]
 	first := rx == nil
 	if first {
@@ -1191,6 +1505,12 @@ func (h *c15H) onPublish(cl *c15Cl, p *packets.PublishPacket) {
 	if rx.count > 1 {
 		h.resends++
 		r.Probe("mqtt.qos1_resend_seen")
+		if cl.restored {
+			r.Probe("mqtt.restored_session.qos1_resend_seen")
+		}
+		if cl.inMemory {
+			r.Probe("mqtt.inherited_session.qos1_resend_seen")
+		}
 	}
 	if rx.ackQueued {
 		r.Probe("mqtt.copy_between_puback_and_its_processing")
@@ -1199,6 +1519,9 @@ func (h *c15H) onPublish(cl *c15Cl, p *packets.PublishPacket) {
 	if rx.count <= rx.pol.Omit {
 		h.omitted++
 		r.Probe("mqtt.puback_omitted")
+		if cl.restored {
+			r.Probe("mqtt.restored_session.puback_omitted")
+		}
 		return
 	}
 	if rx.pol.DelayMs > 0 {
@@ -1403,6 +1726,23 @@ func (h *c15H) endConn(cl *c15Cl) {
 	if h.stopping || cl.dead {
 		return
 	}
+	if !cl.clean && sp.End != "ping" && len(cl.succ) > 0 && !cl.succ[0].clean && !cl.supOK {
+		// a persistent client that is going to come back for its session gives
+		// the (asynchronous) session store a moment to catch up with what was
+		// acknowledged; what is still missing then is the known store lag of C16.
+		for i := 0; i < 40 && !h.stopping && !cl.dead; i++ {
+			if g, ok := c15DecodeSession(h.store.last[sp.ID]); ok && c15SameSubs(g.topics, cl.confirmed) {
+				break
+			}
+			if i == 0 {
+				r.Probe("mqtt.session_store_behind_at_disconnect")
+			}
+			r.Sleep(time.Millisecond)
+		}
+		if h.stopping || cl.dead {
+			return
+		}
+	}
 	if sp.End == "ping" {
 		// lets the read loop of a superseded connection notice that it is closed
 		if cl.supOK {
@@ -1549,6 +1889,29 @@ func (h *c15H) runPublisher(pb *c15Publisher) {
 		if !c15ValidTopic(p.T) || p.Q < 0 || p.Q > 1 || p.ID == "" {
 			continue
 		}
+		if p.After != "" {
+			var w *c15Cl
+			for _, cl := range h.clients {
+				if cl.spec.ID == p.After {
+					w = cl
+				}
+			}
+			if w != nil && !w.ready {
+				h.pending-- // waiting for a connection is not activity of the publisher
+				select {
+				case <-w.readyCh:
+				case <-h.stopCh:
+				}
+				h.pending++
+				h.progress++
+			}
+			if h.stopping {
+				return
+			}
+			if w != nil && w.restored && w.connected && !w.dead {
+				h.r.Probe("mqtt.restored_session.publish_after_restore")
+			}
+		}
 		h.r.Sleep(time.Duration(p.GapMs) * time.Millisecond)
 		n := p.Burst
 		if n < 1 {
@@ -1606,6 +1969,24 @@ func c15SubList(l []c15Sub) string {
 	return "[" + strings.Join(s, " ") + "]"
 }
 
+// ackedByLineage tells whether an earlier connection of the same client id,
+// whose session object this connection inherited in memory, has sent a PUBACK
+// for this very message under this packet id: the client has acknowledged it
+// then, whichever of its connections carried the PUBACK.
+func (h *c15H) ackedByLineage(cl *c15Cl, rx *c15Rx) bool {
+	for c := cl; c != nil && c.inMemory; {
+		p := c.accepted()
+		if p == nil {
+			return false
+		}
+		if prx := p.rx[rx.key]; prx != nil && prx.qos1 && !prx.stray && prx.mid == rx.mid && prx.ackSeq > 0 {
+			return true
+		}
+		c = p
+	}
+	return false
+}
+
 // satisfied tells whether every obligation of the run is already met.
 func (h *c15H) satisfied() bool {
 	for _, cl := range h.clients {
@@ -1620,6 +2001,9 @@ func (h *c15H) satisfied() bool {
 		for _, key := range cl.rxOrder {
 			rx := cl.rx[key]
 			if rx.qos1 && !rx.stray && (rx.ackSeq == 0 || (rx.pol.Ping && rx.ackSeq > cl.confSeq)) {
+				if rx.ackSeq == 0 && !rx.delaying && h.ackedByLineage(cl, rx) {
+					continue
+				}
 				return false
 			}
 		}
@@ -1698,6 +2082,34 @@ func (h *c15H) describe(m *c15Msg) string {
 
 func (h *c15H) evaluate() {
 	r := h.r
+	// statement silent (recorded, not judged): QoS1 copies a persistent client
+	// had not acknowledged when it ended its connection, after its return
+	for _, cl := range h.clients {
+		pr := cl.accepted()
+		if cl.clean || !cl.connected || pr == nil || pr.clean || !pr.ending || !(cl.restored || cl.inMemory) {
+			continue
+		}
+		for _, key := range pr.rxOrder {
+			rx := pr.rx[key]
+			if !rx.qos1 || rx.stray || rx.ackSeq != 0 {
+				continue
+			}
+			how := "restored"
+			if cl.inMemory {
+				how = "inherited"
+			}
+			if cl.rx[key] != nil {
+				r.Probe("mqtt.unacked_qos1_of_ended_connection_redelivered_on_" + how + "_session")
+			} else {
+				r.Probe("mqtt.unacked_qos1_of_ended_connection_not_redelivered_on_" + how + "_session")
+			}
+		}
+	}
+	for _, cl := range h.clients {
+		if cl.restored && cl.connected && cl.nQ1 > 0 && cl.maxOccFrom(cl.connTick, h.tick) >= cl.qcap {
+			r.Probe("mqtt.restored_session.qos1_while_outbound_queue_possibly_full")
+		}
+	}
 	for _, cl := range h.clients {
 		if cl.lost != "" {
 			if !cl.lostOK {
@@ -1778,6 +2190,10 @@ func (h *c15H) evaluate() {
 		for _, key := range cl.rxOrder {
 			rx := cl.rx[key]
 			if rx.qos1 && !rx.stray && !rx.ackQueued && !rx.delaying {
+				if h.ackedByLineage(cl, rx) {
+					r.Probe("mqtt.inherited_session.acknowledged_through_superseded_connection")
+					continue
+				}
 				h.violate("C15.retransmission-stopped-before-ack", "client %s received %d copies of QoS1 message %q (packet id %d) and acknowledges the copy #%d; nothing was retransmitted any more although no PUBACK was sent",
 					cl.name, rx.count, c15Short(key), rx.mid, rx.pol.Omit+1)
 			}
@@ -1847,7 +2263,7 @@ func c15Exec(r *sim.Run, sci interface{}) {
 		}
 		cl := &c15Cl{spec: c, idx: len(h.clients), name: c.ID, confirmed: map[string]int{}, subAckCh: make(chan struct{}, 1),
 			hungCh: make(chan struct{}), wake: make(chan struct{}, 1), rx: map[string]*c15Rx{}, byMid: map[uint16]string{}, pubs: map[uint16]*c15CPub{},
-			readyCh: make(chan struct{}), deadCh: make(chan struct{}), supCh: make(chan struct{})}
+			readyCh: make(chan struct{}), deadCh: make(chan struct{}), supCh: make(chan struct{}), flux: map[string]bool{}, inhF: map[string]bool{}}
 		nth[c.ID]++
 		if p := last[c.ID]; p != nil {
 			cl.pred = p
@@ -1856,9 +2272,7 @@ func c15Exec(r *sim.Run, sci interface{}) {
 				q.succ = append(q.succ, cl)
 			}
 		}
-		// cleanSession=0 only for the first connection of an id: inheriting a
-		// stored session is C16's subject (and has known store-lag findings)
-		cl.clean = !(c.Persist && cl.pred == nil)
+		cl.clean = !c.Persist
 		cl.initial = cl.pred == nil && c.StartMs == 0
 		if cl.initial {
 			h.nInitial++
@@ -1901,7 +2315,8 @@ func c15Exec(r *sim.Run, sci interface{}) {
 	if sc.Limit > 0 {
 		spec.ClientPublishLimit = &RateLimit{RequestRate: sc.Limit, TimePeriod: 1}
 	}
-	h.broker = newBroker(spec, newStorage(nil), h, func(string, string) ([]string, error) { return nil, nil })
+	h.store = &c15Store{in: newStorage(nil), gets: map[string][]c15Get{}, last: map[string]string{}}
+	h.broker = newBroker(spec, h.store, h, func(string, string) ([]string, error) { return nil, nil })
 	if h.broker == nil {
 		h.net.Shutdown()
 		panic("c15: newBroker returned nil")
